@@ -785,6 +785,34 @@ func (sc *SpecCtx) evalCall(e *ECall) (Val, error) {
 		}
 		vc.allocVar()
 		return Val{T: app("select", vc.cur(sc.env, "alloc"), sc.term(v)), Ty: boolT}, nil
+	case "lockset":
+		// lockset(mu1, W, mu2, R, ...): the current goroutine holds exactly these locks (lockset(): none)
+		vc.lockVar()
+		arr := "((as const (Array Int Int)) 0)"
+		for i := 0; i+1 < len(e.Args); i += 2 {
+			v, err := sc.eval(e.Args[i])
+			if err != nil {
+				return Val{}, err
+			}
+			var addr string
+			if v.LV != nil && v.Ty != nil && isLockType(v.Ty) {
+				addr = vc.lockAddr(v.LV)
+			} else if v.Ty != nil {
+				if pt, ok := v.Ty.Underlying().(*types.Pointer); ok && isLockType(pt.Elem()) {
+					addr = sc.term(v)
+				}
+			}
+			if addr == "" {
+				return Val{}, fmt.Errorf("lockset: %s is not a mutex", e.Args[i])
+			}
+			m, _ := e.Args[i+1].(*EIdent)
+			st := "2"
+			if m != nil && m.Name == "R" {
+				st = "1"
+			}
+			arr = app("store", arr, addr, st)
+		}
+		return Val{T: sEq(vc.cur(sc.env, "LockSt"), arr), Ty: boolT}, nil
 	case "lockstate":
 		// lockstate(mu): 0 = not held, 1 = held shared, 2 = held exclusive (by the owner under consideration)
 		v, err := sc.eval(e.Args[0])
